@@ -1,3 +1,5 @@
+//go:build mcbuild
+
 // C12: chans.Merge / chans.Replicate / stream.Merge. Engine E2.
 package main
 
